@@ -107,3 +107,61 @@ def loose_inv_big(s0: int, form: int, damaged: bool) -> bool:
     post: _
     """
     return _loose('inv', s0, 7, form, damaged, 0)
+
+
+def _single(h0, s0, s1, target, no_holes, read_twice, compress, cb):
+    """the single-object wrapper add_streamed_object_to_pack (stream wrapped in CallbackStreamWrapper): known content
+    (obj0, already packed) and new content (obj1), every option forwarded"""
+    w = make_world(target)
+    try:
+        w.set_zlen(1, s1, 5)
+        w.set_pack(0, [('junk', 0, h0), ('obj', 0, s0)])
+        objs = objs_map(w, [(0, s0), (1, s1)])
+        before = w.image()
+        events = []
+        callback = (lambda action, value: events.append(action)) if cb else None
+        k0 = w.c.add_streamed_object_to_pack(w.stream(0, s0), compress=compress, no_holes=no_holes,
+                                             no_holes_read_twice=read_twice, callback=callback)
+        k1 = w.c.add_streamed_object_to_pack(w.stream(1, s1), compress=compress, no_holes=no_holes,
+                                             no_holes_read_twice=read_twice, callback=callback)
+        if k0 != w.key(0, s0) or k1 != w.key(1, s1):
+            return False
+        after = w.image()
+        if not inv_ok(after, w, objs) or not layout_ok(before, after, target) or len(after.rows()) != 2:
+            return False
+        for r in after.rows():
+            if r['hashkey'] == k1 and bool(r['compressed']) != compress:
+                return False
+        if no_holes:  # known content leaves nothing behind
+            total = 0
+            for pid in after.pack_ids():
+                total = total + len(after.pack_data(pid))
+            want = h0
+            for r in after.rows():
+                want = want + r['length']
+            if total != want:
+                return False
+        if cb and (events.count('init') != 2 or events.count('close') != 2):
+            return False
+        return views_ok(w.c, w, objs, ABSENT)
+    finally:
+        w.cleanup()
+
+
+def single_pack(s0: int, s1: int, target: int, no_holes: bool, read_twice: bool, compress: bool, cb: bool) -> bool:
+    """
+    pre: 1 <= s0 <= 70000 and 1 <= s1 <= 70000 and 1 <= target <= 140010
+    post: _
+    """
+    return _single(1, s0, s1, target, no_holes, read_twice, compress, cb)
+
+
+def direct_short(s1: int, s2: int, cut: int, target: int, no_holes: bool, read_twice: bool) -> bool:
+    """
+    Direct to pack from an input stream whose first read returns a short count (at most cut bytes; the io.RawIOBase
+    contract): obj2's stream is short, a duplicate of the packed obj0 sits in the middle of the batch.
+    pre: 1 <= s1 <= 100 and 1 <= s2 <= 70000 and 1 <= cut <= 70000 and 1 <= target <= 70200
+    post: _
+    """
+    return _direct('inv', 1, 3, s1, s2, 1, target, no_holes, read_twice, cut) and \
+        _direct('views', 1, 3, s1, s2, 1, target, no_holes, read_twice, cut)
